@@ -94,6 +94,14 @@ class FakeSharedMemory:
             raise ValueError("'name' can only be None if create=True")
         self._host = host
         self._track = track
+        if name is not None:
+            # what shm_open() does with the name before it looks anything up (glibc, Linux): an embedded NUL never
+            # reaches the OS, and an empty, '.', '..', slash-containing or over-long name is EINVAL, not ENOENT
+            if "\0" in name:
+                raise ValueError("embedded null character")
+            bare = name.lstrip("/")
+            if bare in ("", ".", "..") or "/" in bare or len(bare.encode("utf-8", "surrogateescape")) > 255:
+                raise OSError(22, "Invalid argument", "/" + name)
         if create:
             if name is None:
                 host.counter += 1
